@@ -476,11 +476,12 @@ void f_mult_eq () {
 
     case T_MAPPING:
       {
-        mapping_t *m = compose_mapping (argp->u.map, sp->u.map, 0);
+        /* flag 0: argp's mapping is composed in place and NULL is returned */
+        (void) compose_mapping (argp->u.map, sp->u.map, 0);
         if (argp->u.map != sp->u.map)
           {
             pop_stack ();
-            push_mapping (m);
+            push_mapping (argp->u.map);
           }
         assign_svalue (argp, sp);
         break;
